@@ -149,7 +149,7 @@ def run(ctx):
         except boolfn.Unknown as e:
             ctx.undecided('ALG-17', 'good/bad criterion', where(fo, test), str(e))
     # ---- list input accepted; records unchanged
-    from .c10 import check_ctor
+    from .c10 import check_inputs as check_ctor
     check_ctor(ctx)
     common.check_ownership(ctx, only=('filter_output',))
 
